@@ -60,6 +60,10 @@ def generate(rng, tier, idx):
           'conv_memmap': rng.random() < 0.5, 'stream': rng.choice(['path', 'reader']),
           'conv_crash': ({'at': rng.randrange(nf), 'partial': rng.random() < 0.5} if rng.random() < 0.2 else None),
           'fit_crash': ({'frac': round(rng.random(), 4), 'kind': rng.choice(['crash', 'enospc'])} if rng.random() < 0.2 else None)}
+    if rng.random() < 0.08:
+        # a fixed, known extinction: the range is a single value
+        a_ = round(rng.uniform(0.5, 12), 2)
+        sc['av_range'] = [a_, a_]
     if w['apdep']:
         dmin = float('%.4g' % (10 ** rng.uniform(-1, 0.5)))
         dmax = dmin if rng.random() < 0.1 else float('%.4g' % (dmin * 10 ** rng.uniform(0.02, 0.6)))
